@@ -7,6 +7,8 @@ import (
 	"fmt"
 	"sort"
 	"strings"
+	"sync"
+	"sync/atomic"
 	"time"
 
 	"github.com/0chain/common/core/statecache"
@@ -111,24 +113,24 @@ type savedRound struct {
 }
 
 type rWorld struct {
-	reads     int    // "read the pending change set" events in the current round (capped): reads change nothing the key shows
-	readMarks string // where in the round they happened (transaction number / operations so far): part of the state key
-	c         roundCfg
+	reads                          int    // "read the pending change set" events in the current round (capped): reads change nothing the key shows
+	readMarks                      string // where in the round they happened (transaction number / operations so far): part of the state key
+	c                              roundCfg
 	failedSaves                    int // 'F' events so far (the store object has seen a failed write): part of the state key
 	lastSaveWrites, lastNodeWrites int // device writes of the last save (all / those made by SaveChanges)
-	dev       string
-	pn        *util.PNodeDB
-	ver       int64
-	B         *util.MerklePatriciaTrie
-	model     map[string]string
-	T         *util.MerklePatriciaTrie
-	tmodel    map[string]string
-	tops      int
-	txns      int
-	saved     []savedRound
-	prevRoot  []byte
-	roundEvts []rEvent
-	stats     *crashStats
+	dev                            string
+	pn                             *util.PNodeDB
+	ver                            int64
+	B                              *util.MerklePatriciaTrie
+	model                          map[string]string
+	T                              *util.MerklePatriciaTrie
+	tmodel                         map[string]string
+	tops                           int
+	txns                           int
+	saved                          []savedRound
+	prevRoot                       []byte
+	roundEvts                      []rEvent
+	stats                          *crashStats
 }
 
 type crashStats struct {
@@ -851,6 +853,9 @@ func C04(tier rt.Tier) int {
 	if !rt.SubRun && (rt.Replay == nil || rt.Replay.Raw["run"] == "big-round") {
 		bigRounds(rep, tier)
 	}
+	if !rt.SubRun && (rt.Replay == nil || rt.Replay.Raw["run"] == "cancelled-saves") {
+		cancelledSaves(rep, tier)
+	}
 	rep.RunVariant()
 	rep.Set("crash_points_explored", agg.crashPoints)
 	rep.Set("injected_write_failures", agg.failPoints)
@@ -1056,5 +1061,58 @@ func bigRounds(rep *rt.Report, tier rt.Tier) {
 				}
 			}
 		}()
+	}
+}
+
+// cancelledSaves (auxiliary, NOT exhaustive: SaveChanges hands the write to a goroutine of its own and waits in a
+// select, neither of which the explorers control): a save called with a context that is already done may report
+// the context's error - or success, and then the state must be on the target store. Repeated on many small tries
+// and fresh targets in parallel; counts how often each answer was seen.
+func cancelledSaves(rep *rt.Report, tier rt.Tier) {
+	per := 4000
+	if tier == rt.Thorough {
+		per = 40000
+	}
+	var okAnswers, errAnswers int64
+	var mu sync.Mutex
+	fail := ""
+	var wg sync.WaitGroup
+	for w := 0; w < rt.Workers(); w++ {
+		wg.Add(1)
+		go func(w int) {
+			defer wg.Done()
+			base := util.NewMemoryNodeDB()
+			t := util.NewMerklePatriciaTrie(util.NewLevelNodeDB(util.NewMemoryNodeDB(), base, false), 1, nil, statecache.NewEmpty())
+			for i, p := range []string{"0a1b", "0a1c", "0b22", "1c00"} {
+				if _, err := t.Insert(util.Path(p), val(fmt.Sprintf("v%d.%d", w, i))); err != nil {
+					panic(err)
+				}
+			}
+			ctx, cancel := context.WithCancel(context.Background())
+			cancel()
+			for i := 0; i < per; i++ {
+				target := util.NewMemoryNodeDB()
+				err := t.SaveChanges(ctx, target, false)
+				if err != nil {
+					atomic.AddInt64(&errAnswers, 1)
+					continue
+				}
+				atomic.AddInt64(&okAnswers, 1)
+				t2 := util.NewMerklePatriciaTrie(target, 1, t.GetRoot(), statecache.NewEmpty())
+				if has, err := t2.HasMissingNodes(context.Background()); err != nil || has {
+					mu.Lock()
+					if fail == "" {
+						fail = fmt.Sprintf("SaveChanges called with a context that was already cancelled returned nil (attempt %d of worker %d), but the target store does not hold the trie's state: missing nodes %v, %v (%d nodes in the target)", i, w, has, err, target.Size(context.Background()))
+					}
+					mu.Unlock()
+					return
+				}
+			}
+		}(w)
+	}
+	wg.Wait()
+	rep.Set("aux_cancelled_saves", fmt.Sprintf("auxiliary free-running loop (not exhaustive): %d saves with an already cancelled context; %d reported the context error, %d reported success and were found complete on the target", okAnswers+errAnswers, errAnswers, okAnswers))
+	if fail != "" {
+		rep.Violate("[cancelled-saves] "+fail, map[string]any{"run": "cancelled-saves"})
 	}
 }
